@@ -90,6 +90,19 @@ pub fn observe_guarded(text: &str, budget: std::time::Duration) -> Obs {
   }
 }
 
+/// count one parsed text and report its problems
+fn record(out: &mut WorkerOut, unit: u64, fam: &'static str, text: &str, o: &Obs, cross: bool) {
+  out.evaluations += 1;
+  if o.kind != "panic" { out.nontrivial += 1; }
+  out.count(&format!("outcome:{}", o.kind));
+  for (cls, detail) in &o.problems {
+    let locus = if cls == "panic" { let d = detail.split(|c: char| c.is_ascii_digit()).next().unwrap_or("").trim().chars().take(60).collect::<String>(); format!("{}:{}", fam, d) } else { fam.to_string() };
+    out.fail(format!("C09|{}|{}", cls, locus), format!("parse({:?})", text), detail.clone());
+  }
+  if cross || fam != "3-token" && fam != "4-token" && fam != "repetition" { out.extra.push(json!({"t": text, "d": format!("{:016x}", o.digest)})); }
+  if unit % 577 == 0 && fam == "3-token" && out.samples.len() < 2 { out.sample(json!({"text": text, "outcome": o.kind})); }
+}
+
 pub struct C09 { tier: Tier, corpus: Vec<String>, docs: Vec<(String, String)> }
 
 fn load_corpus() -> Vec<String> {
@@ -113,6 +126,7 @@ impl C09 {
   /// one unit per (context, first slot token)
   fn n_slot_units(&self) -> u64 { (SLOT_CONTEXTS.len() * SLOT_TOKENS.len()) as u64 }
   fn n_tok_units(&self) -> u64 { (TOKENS.len() * TOKENS.len()) as u64 }
+  fn n_rep_units(&self) -> u64 { (TOKENS.len() * REP_SEPARATORS.len()) as u64 }
   fn corpus_stride(&self) -> usize { self.tier.pick(48, 2) }
   fn n_corpus_units(&self) -> u64 { 4 * ((self.corpus.len() + self.corpus_stride() - 1) / self.corpus_stride()) as u64 }
 }
@@ -127,6 +141,7 @@ pub const SLOT_CONTEXTS: [(&str, &str, bool); 11] = [
 pub const SLOT_TOKENS: [&str; 24] = ["h", "t", "1", "[", "]", "(", ")", "{", "}", "|", ",", "...", "…", ":a", "*", " ", ":", "<", ">", "_", "\"s\"", "-", "..", "="];
 const SLOT_CORE: [&str; 8] = ["[", "]", "h", "|", ",", "(", ")", "..."];
 
+pub const REP_SEPARATORS: [&str; 7] = ["", ".", ",", " ", "|", ";", "\n"];
 const NEST: [(&str, &str, &str); 8] = [("[", "1", "]"), ("(", "1", ")"), ("{", "1", "}"), ("x := [", "1 2", "]"), ("f(", "x", ")"), ("{{", "x", "}}"), ("\"", "a", "\""), ("<", "f64", ">")];
 
 impl UnitRunner for C09 {
@@ -199,22 +214,53 @@ impl UnitRunner for C09 {
         }
       }
     }
+    // repetition families: one token repeated k times with a separator, bare and inside bracket contexts, k ascending through the
+    // 8-bit boundary. The parser backtracks exponentially on some repeated tokens (emphasis, arm glyphs ...): a series is left as soon
+    // as the measured growth per repeat predicts more than 5 s for the next count (recorded in evidence, like nesting beyond the bound);
+    // a parse that never returns shows at the smallest counts and is reported as a hang
+    let base_total = self.n_tok_units() + self.n_corpus_units() + NEST.len() as u64 * 5 + self.n_doc_units() + self.n_slot_units();
+    if unit >= base_total {
+      let ru = (unit - base_total) as usize;
+      let (ti, si) = (ru / REP_SEPARATORS.len(), ru % REP_SEPARATORS.len());
+      if ti >= TOKENS.len() { return; }
+      let (t, sep) = (TOKENS.get(ti), REP_SEPARATORS[si]);
+      // quick: 4 of the 7 separators, 3 of the 5 contexts, fewer counts
+      if self.tier == Tier::Quick && !["", ".", " ", "\n"].contains(&sep) { return; }
+      let mut counts: Vec<usize> = (2..=self.tier.pick(10usize, 24usize)).collect();
+      counts.extend(self.tier.pick(vec![12, 16, 32, 64, 255, 256], vec![28, 32, 40, 48, 64, 96, 128, 192, 255, 256, 257, 512, 1000]));
+      let contexts: Vec<(&str, &str)> = self.tier.pick(vec![("", ""), ("(", ") T"), ("x := [", "]")], vec![("", ""), ("(", ") T"), ("x := [", "]"), ("{", "}"), ("x<", "> := 1")]);
+      for (o, c) in contexts {
+        let mut last: Option<(usize, f64)> = None;
+        for (ci, k) in counts.iter().enumerate() {
+          let body = std::iter::repeat(t).take(*k).collect::<Vec<_>>().join(sep);
+          let text = format!("{}{}{}", o, body, c);
+          let openers = text.chars().filter(|ch| matches!(ch, '[' | '{' | '(' | '<')).count();
+          if openers > self.tier.pick(4, 5) { out.count("skipped_nesting_beyond_bound"); break; }
+          let t0 = std::time::Instant::now();
+          let ob = observe_guarded(&text, budget + std::time::Duration::from_secs(100 + (text.len() / 50) as u64));
+          let dt = t0.elapsed().as_secs_f64();
+          record(out, unit, "repetition", &text, &ob, false);
+          if let (Some((k1, t1)), Some(next)) = (last, counts.get(ci + 1)) {
+            if dt > 0.1 && t1 > 0.002 && dt > t1 {
+              // exponential signature: a constant factor per added repeat (polynomial growth gives a factor that tends to 1)
+              let g = (dt / t1).powf(1.0 / (*k - k1) as f64);
+              let predicted = dt * g.powf((*next - *k) as f64);
+              if (g >= 1.15 && predicted > 10.0) || (dt > 0.5 && g >= 1.5) { out.set("repetition_series_left_for_exponential_backtracking", &format!("{:?} repeated with separator {:?} inside {:?}..{:?}: {:.2} s at {} repeats, x{:.2} per repeat", t, sep, o, c, dt, k, g)); break; }
+            }
+          }
+          last = Some((*k, dt));
+        }
+      }
+      return;
+    }
     let cross = payload == "pass2";
     for (text, fam) in inputs {
       // the parser is exponential in bracket nesting: more than 4 (quick) / 5 (thorough) opening brackets are outside the stated bound
       let openers = text.chars().filter(|c| matches!(c, '[' | '{' | '(' | '<')).count();
       if fam != "corpus" && fam != "corpus-prefix" && fam != "corpus-delete" && fam != "corpus-swap" && fam != "corpus-duplicate" && fam != "document" && fam != "document-line-prefix" && openers > self.tier.pick(4, 5) { out.count("skipped_nesting_beyond_bound"); continue; }
-      out.evaluations += 1;
       // the parser needs a minute and more for the repository's largest test documents: the time allowed grows with the text
       let o = observe_guarded(&text, budget + std::time::Duration::from_secs((text.len() / 50) as u64));
-      if o.kind != "panic" { out.nontrivial += 1; }
-      out.count(&format!("outcome:{}", o.kind));
-      for (cls, detail) in &o.problems {
-        let locus = if cls == "panic" { let d = detail.split(|c: char| c.is_ascii_digit()).next().unwrap_or("").trim().chars().take(60).collect::<String>(); format!("{}:{}", fam, d) } else { fam.to_string() };
-        out.fail(format!("C09|{}|{}", cls, locus), format!("parse({:?})", text), detail.clone());
-      }
-      if cross || fam != "3-token" && fam != "4-token" { out.extra.push(json!({"t": text, "d": format!("{:016x}", o.digest)})); }
-      if unit % 577 == 0 && fam == "3-token" && out.samples.len() < 2 { out.sample(json!({"text": text, "outcome": o.kind})); }
+      record(out, unit, fam, &text, &o, cross);
     }
   }
 }
@@ -224,7 +270,7 @@ impl Check for C09 {
   fn level(&self) -> &'static str { "exploration" }
   fn unit_budget(&self, t: Tier) -> Duration { Duration::from_secs(t.pick(240, 3600)) }
   fn drive(&mut self, tier: Tier, cfg: &PoolCfg, rep: &mut Report) {
-    let total = self.n_tok_units() + self.n_corpus_units() + NEST.len() as u64 * 5 + self.n_doc_units() + self.n_slot_units();
+    let total = self.n_tok_units() + self.n_corpus_units() + NEST.len() as u64 * 5 + self.n_doc_units() + self.n_slot_units() + self.n_rep_units();
     let (a, b) = (self.n_tok_units(), self.n_corpus_units());
     rep.describe = Some(Box::new(move |_p, u| (if u < a { "token-strings" } else if u < a + b { "corpus" } else { "nesting-or-document" }.to_string(), format!("unit {} (the worker names the exact text when it times a parse out)", u))));
     // pass 1: everything; pass 2 (other worker processes): one-/two-token strings, corpus and nesting again, digests compared
@@ -239,7 +285,7 @@ impl Check for C09 {
     let mut compared = 0u64;
     for (t, d) in &digests[1] { if let Some(d0) = digests[0].get(t) { compared += 1; if d0 != d { rep.out.failures.push(Failure { key: "C09|nondeterministic|across-processes".into(), case: format!("parse({:?})", t), detail: "the outcome (tree or report rendering) differs between two processes".into(), payload: "pass1".into(), unit: 0 }); } } }
     rep.cov("texts_compared_across_processes", json!(compared));
-    rep.rule = format!("every string of 1..2 tokens, and of 3 tokens with the third from 18 construct tokens (8 for pairs holding one of the 40 rarer sigils) (quick) / from the whole alphabet (thorough), over a {}-token alphabet (identifiers, digits, every bracket, operators, quotes, fences, comment sigils, box-drawing arm glyphs, an emoji, a combining sequence, CRLF, and every other leaf token of the parser: callout / float / prompt / footnote / image / highlight sigils, arrows, Mika glyphs, ...){}; {} blocks of the repository's own .mec files (every {}th block of <= 160 bytes) with every single-grapheme deletion, duplication, adjacent swap and every prefix; bracket/quote nesting families to depth 4 (quick) / 5 (thorough); slot families (11 contexts with one hole - match-arm, generator, function-arm and state patterns, subscript, kind annotation, call arguments, table header, braces, range end, guard - filled with every string of <= 2 (quick) / 3 (thorough) of 24 tokens and of 3 / 4 of 8 core tokens, 4 in the pattern contexts also in the quick tier); every whole .mec document of the repository up to 12 KB (quick) / of any size (thorough) and, thorough, every prefix of the documents up to 6 KB that ends at a line end; \
+    rep.rule = format!("every string of 1..2 tokens, and of 3 tokens with the third from 18 construct tokens (8 for pairs holding one of the 40 rarer sigils) (quick) / from the whole alphabet (thorough), over a {}-token alphabet (identifiers, digits, every bracket, operators, quotes, fences, comment sigils, box-drawing arm glyphs, an emoji, a combining sequence, CRLF, and every other leaf token of the parser: callout / float / prompt / footnote / image / highlight sigils, arrows, Mika glyphs, ...){}; {} blocks of the repository's own .mec files (every {}th block of <= 160 bytes) with every single-grapheme deletion, duplication, adjacent swap and every prefix; bracket/quote nesting families to depth 4 (quick) / 5 (thorough); slot families (11 contexts with one hole - match-arm, generator, function-arm and state patterns, subscript, kind annotation, call arguments, table header, braces, range end, guard - filled with every string of <= 2 (quick) / 3 (thorough) of 24 tokens and of 3 / 4 of 8 core tokens, 4 in the pattern contexts also in the quick tier); repetition families (every token repeated 2..12, 16, 32, 64, 255, 256 times with 4 separators in 3 contexts (quick) / 2..24, 28 .. 257, 512, 1000 times with 7 separators in 5 contexts (thorough); a series is left, and listed in the evidence, as soon as the measured growth per repeat is exponential and predicts more than 10 s for the next count); every whole .mec document of the repository up to 12 KB (quick) / of any size (thorough) and, thorough, every prefix of the documents up to 6 KB that ends at a line end; \
       each text is parsed twice in a watchdog thread ({} s budget): the outcome must be a tree or an error report, never a panic or a non-terminating parse; every cause and annotation range of a report must lie inside text+newline with start <= end; the two parses and a parse in another worker process must render identically; evaluations = texts; non-trivial = texts that produced a tree or a report",
       TOKENS.len(), if tier == Tier::Thorough { " and every 4-token string over the 26 construct-opening/closing tokens" } else { "" }, self.n_corpus_units(), self.corpus_stride(), tier.pick(20, 40));
     rep.assumptions = vec!["a parse is called non-terminating when it exceeds the stated budget plus one second per 50 bytes of text (tests/compare.mec, 25 KB, takes 100 s); nesting deeper than 5 is outside the bound (the parser is exponential in nesting depth)".into(), "rendering an error report (TextFormatter::format_error) is not part of this check".into(), "'reads nothing but the text' is checked structurally: parse() receives only the &str and the harness gives it no file or interpreter".into()];
